@@ -85,7 +85,7 @@ def run(prog, rep, tier, repo):
                     rep.undecided('setter-agree', 'setter-agree:%s:%s' % (sk, sm.fname(fi) if fi != '?' else '?'),
                                   'effect of %s not read: %s' % (short(sk), eff.undec), site_of(st.body), proof=False)
                 for ci, deps in derived.items():
-                    if any(param_fields[fi] in deps for fi in W):
+                    if not W or any(param_fields[fi] in deps for fi in W):
                         rep.undecided('cache-coherent', 'cache-coherent:%s:%s' % (sk, sm.fname(ci)),
                                       'effect of %s not read: %s' % (short(sk), eff.undec), site_of(st.body), proof=False)
                 continue
